@@ -14,7 +14,7 @@ RULE = ("a case = one malformed-but-checksum-valid response frame (or a mix of s
         "device returns as the answer to every command of refresh(), apply(), get_capabilities(), toggle_display() and start_self_clean(). "
         "The client is fresh or has learned a full capability profile first. Families: every valid response kind with its body truncated to every shorter length (incl. the empty body and the empty frame, "
         "checks recomputed), raw frame truncations with the last byte fixed up, every count/size byte set to every value 0..255, every "
-        "response id 0..255 x frame types {2,3,4,5,6,0xA0} with random bodies, mixes [bad.., good, bad..] for state reports, for capability replies (one page, or two pages with the junk around the additional page) and for property reports (one or two decodable reports among undecodable property frames); a one-record capability profile with any value learned first and state reports with unusual fan/mode/swing values afterwards. Oracle: no exception escapes any "
+        "response id 0..255 x frame types {2,3,4,5,6,0xA0} with random bodies, mixes [bad.., good, bad..] for state reports, for capability replies (one page, or two pages with the junk around the additional page) and for property reports (one or two decodable reports among undecodable property frames); pairs of decodable but degenerate reports (all-zero / all-ones / non-BCD energy and humidity groups, short and odd state reports) one after the other on a client that polls energy in both formats; a one-record capability profile with any value learned first and state reports with unusual fan/mode/swing values afterwards. Oracle: no exception escapes any "
         "of the five operations; in a mix the good frame's state (reference decode) is visible afterwards. distinct = distinct frame bytes "
         "x operation; non-trivial = the frame passes the outer checksum (so it reaches the parsers)")
 ASSUMPTIONS = ["frames are delivered inside authentic V2 packets (transport-level malformation is C09's business)",
@@ -158,6 +158,13 @@ def generate(ctx, rng):
         before = [rng.choice(pool) for _ in range(rng.randint(0, 3))]
         after = [rng.choice(pool) for _ in range(rng.randint(0, 3))]
         yield ("mix", j), {"kind": "mix", "state": st, "before": before, "after": after}
+    # histories: two decodable (but possibly degenerate: all zero, all ones, non-BCD digits) reports one after the other on a client
+    # that polls energy and humidity - what the first one left behind meets the second one
+    pool = _degenerate_pool()
+    pairs = [(a, b) for a in range(len(pool)) for b in range(len(pool))]
+    rng.shuffle(pairs)
+    for i in range(0, len(pairs) if ctx.tier != "quick" else min(len(pairs), 450), 30):
+        yield ("seq", i), {"kind": "seq", "pairs": pairs[i:i + 30]}
     unsol = _unsolicited_b5(rng)
     # a (malformed but decodable) capability *query response* ahead of the genuine one is legitimately the one used
     noncaps = [f for f in pool if not (len(f) > 10 and f[10] == 0xB5 and f[9] == acframe.FT_QUERY)][:60]
@@ -193,6 +200,61 @@ def generate(ctx, rng):
             seqs.append((cid, v))
     for i in range(0, len(seqs), 24):
         yield ("caps-then-state", i), {"kind": "caps-then-state", "records": seqs[i:i + 24], "sseed": rng.getrandbits(32)}
+
+
+def _degenerate_pool():
+    out = []
+    for grp, n in ((0x44, 21), (0x45, 21), (0x41, 21), (0x42, 21), (0x43, 21), (0x40, 21)):
+        for fill in (0x00, 0xFF, 0x99, 0x12, 0xAA, 0x09):
+            b = bytearray([fill] * n)
+            b[0:4] = bytes([0xC1, 0x21, 0x01, grp])
+            out.append(acframe.build(bytes(b), acframe.FT_QUERY))
+        b = bytearray(n)
+        b[0:4] = bytes([0xC1, 0x21, 0x01, grp])
+        b[4:8] = bytes([0x00, 0x12, 0x34, 0x56])
+        b[12:16] = bytes([0x00, 0x00, 0x07, 0x89])
+        b[16:19] = bytes([0x00, 0x15, 0x50])
+        out.append(acframe.build(bytes(b), acframe.FT_QUERY))
+    for st in ({}, {"power": True, "target_temperature": 30.0, "fan": 102}, {"target_humidity": 0}, {"target_humidity": 100}):
+        for ln in (16, 19, 23, 24):
+            out.append(acframe.build(acstate.encode_0xC0({**acstate.default_state(), **st}, ln), acframe.FT_QUERY))
+    for ov in ({11: 0xFF, 12: 0xFF}, {11: 0, 12: 0, 15: 0x99}, {3: 0}, {3: 127}, {2: 0xFF}, {7: 0xFF}):
+        out.append(acframe.build(acstate.encode_0xC0(acstate.default_state(), 23, ov), acframe.FT_QUERY))
+    return out
+
+
+def _seq(ctx, case):
+    pool = _degenerate_pool()
+    net = H.new_net()
+    dev = SimDevice(net, version=2, device_id=0x94)
+    cur = {"frames": []}
+    dev.on_exchange = lambda conn, req, packets, meta: [(0, dev.wrap(conn, f)) for f in cur["frames"]]
+    full_caps = acframe.build(acprops.build_caps(c13.CAPS0 + [(0x0043, b"\x01"), (0x0048, b"\x02")], False), acframe.FT_QUERY)
+    out = []
+
+    async def go(loop):
+        for a, b in case["pairs"]:
+            ac = AC(ip=dev.host, port=dev.port, device_id=dev.device_id)
+            cur["frames"] = [full_caps]
+            await ac.get_capabilities()
+            ac.enable_energy_usage_requests = True
+            for binary in (False, True):
+                ac.use_alternate_energy_format = binary
+                for idx in (a, b, a):
+                    cur["frames"] = [pool[idx]]
+                    for op in ("refresh", "apply"):
+                        try:
+                            await _do(ac, op)
+                            out.append((a, b, idx, op, None))
+                        except Exception as e:  # noqa: BLE001
+                            out.append((a, b, idx, op, e))
+
+    H.run_virtual(go, net)
+    for a, b, idx, op, exc in out:
+        ctx.count(("seq", a, b, idx, op), kind="report-after-report")
+        if exc is not None:
+            ctx.violation(f"{type(exc).__name__}/report-after-report", f"{op} raised {type(exc).__name__}: {exc} for a decodable report that follows another one "
+                          f"on the same client (pool entries {a} -> {b})", {"kind": "seq", "pairs": [(a, b)]}, {"frame": pool[idx]})
 
 
 def _capsmix(ctx, case):
@@ -353,6 +415,8 @@ def _caps_then_state(ctx, case):
 
 
 def run_case(ctx, case):
+    if case["kind"] == "seq":
+        return _seq(ctx, case)
     if case["kind"] == "propsmix":
         return _propsmix(ctx, case)
     if case["kind"] == "caps-then-state":
